@@ -19,7 +19,10 @@ module String = Stdlib.String
                    impl_* (tie: equal on all 256 values) and spec_* (property: every value the specification
                    allows is accepted; extra accepted values are reported as notes).  Run by shard 0 only.
    Corpus / replay files: every line containing `DEC <version> <max> x.. x..` is run first as a
-   malformed-stream case with exactly those chunks (second chunking: whole stream). *)
+   malformed-stream case with exactly those chunks (second chunking: whole stream); `REJECT <version> <max>
+   x..` is the same with one more monitor: the implementation must report an error (MQTT-1.5.4-2 etc.).
+   On every stream (property): no string field of a packet the implementation delivers contains U+0000
+   (extracted StringsNoNul.packet_strings_no_nul, the statement of C03_strings_no_nul). *)
 open Util
 open Packets
 
@@ -273,7 +276,13 @@ type failure = { kind : string; detail : string; signature : string }
 
 (* expected = Some texts for valid streams; gate = Some offset of the byte completing the length
    field of the first packet whose announced size exceeds max (size-gate monitor) *)
-let check_stream (h : harness) (v : version) (mx : int) (stream : int array) (ch1 : int list list) (ch2 : int list list)
+(* MQTT-1.5.4-2 on a delivered packet (text as printed by the facade) *)
+let has_nul_string (text : string) : bool =
+  match (try Some (Ptext.packet_of_text text) with _ -> None) with
+  | Some p -> not (StringsNoNul.packet_strings_no_nul p)
+  | None -> false
+
+let check_stream ?(must_fail = false) (h : harness) (v : version) (mx : int) (stream : int array) (ch1 : int list list) (ch2 : int list list)
     (expected : string list option) (gate : int option) (what : string) (dist : (string, int) Hashtbl.t) : failure option =
   let (iv1, ip1) = run_impl h v mx ch1 in
   let (iv2, ip2) = run_impl h v mx ch2 in
@@ -286,6 +295,10 @@ let check_stream (h : harness) (v : version) (mx : int) (stream : int array) (ch
                                           what msg cmd1 iv1 (L.length ip1) cmd2 iv2 (L.length ip2) mv1 (L.length mp1) mv2 (L.length mp2) } in
   (* property monitors on the implementation *)
   if is_panic iv1 || is_panic iv2 then fail "property" "panic" "implementation panicked"
+  else if L.exists has_nul_string ip1 || L.exists has_nul_string ip2 then
+    fail "property" "nul-in-string" "a delivered packet has a UTF-8 string field containing U+0000 (MQTT-1.5.4-2: must be treated as malformed)"
+  else if must_fail && (iv1 = "ok" || iv2 = "ok") then
+    fail "property" "malformed-accepted" "a stream the corpus marks REJECT (malformed by the specification) was accepted"
   else if (match expected with Some e -> iv1 <> "ok" || ip1 <> e || iv2 <> "ok" || ip2 <> e | None -> false) then begin
     let e = (match expected with Some e -> e | None -> []) in
     let first_bad = (try L.find (fun t -> not (L.mem t ip1)) e with Not_found -> "") in
@@ -526,6 +539,7 @@ let run_tables (h : harness) (dist : (string, int) Hashtbl.t) : failure list * i
    Two DEC occurrences of the same stream in one line are the two chunkings of one case. *)
 type ccase =
   | CDec of version * int * int list list * int list list
+  | CReject of version * int * int list list
   | CValid of version * packet
 
 let is_hex_token (t : string) =
@@ -542,8 +556,12 @@ let trim_json (t : string) : string =
 
 let parse_line (line : string) : ccase list =
   let toks = L.filter (fun t -> t <> "") (L.map trim_json (split_ws line)) in
-  let decs = ref [] and valids = ref [] in
+  let decs = ref [] and valids = ref [] and rejects = ref [] in
   let rec scan = function
+    | "REJECT" :: v :: mx :: rest when (v = "5" || v = "311") && (try ignore (int_of_string mx); true with _ -> false) ->
+      let rec take acc = function t :: tl when is_hex_token t -> take (L.map int_of_n (bytes_of_hex t) :: acc) tl | tl -> (L.rev acc, tl) in
+      let (chunks, tl) = take [] rest in
+      rejects := CReject ((if v = "5" then V5 else V311), int_of_string mx, chunks) :: !rejects; scan tl
     | "DEC" :: v :: mx :: rest when (v = "5" || v = "311") && (try ignore (int_of_string mx); true with _ -> false) ->
       let rec take acc = function t :: tl when is_hex_token t -> take (L.map int_of_n (bytes_of_hex t) :: acc) tl | tl -> (L.rev acc, tl) in
       let (chunks, tl) = take [] rest in
@@ -562,7 +580,7 @@ let parse_line (line : string) : ccase list =
   let dec_cases = (match decs with
       | [(v1, m1, c1); (v2, m2, c2)] when v1 = v2 && m1 = m2 && L.concat c1 = L.concat c2 -> [CDec (v1, m1, c1, c2)]
       | l -> L.map (fun (v, m, c) -> CDec (v, m, c, [L.concat c])) l) in
-  L.rev !valids @ dec_cases
+  L.rev !valids @ dec_cases @ L.rev !rejects
 
 let read_corpus (files : string list) : ccase list =
   L.concat_map (fun file ->
@@ -603,6 +621,11 @@ let main (seed : int) (count : int) (harness_path : string) (extra : string list
         events := !events + L.length ch1 + L.length ch2;
         note_stream stream "corpus";
         record (check_stream h v mx (Array.of_list stream) ch1 ch2 None None "corpus" dist)
+      | CReject (v, mx, ch1) ->
+        let stream = L.concat ch1 in
+        events := !events + L.length ch1 + L.length stream;
+        note_stream stream "corpus-reject";
+        record (check_stream ~must_fail:true h v mx (Array.of_list stream) ch1 (L.map (fun x -> [x]) stream) None None "corpus-reject" dist)
       | CValid (v, p) ->
         (match SpecEncodeS2C.spec_encode v p with
          | Some b ->
